@@ -143,6 +143,62 @@ def bexpr(node, names):
     raise TranslateError(f'unsupported boolean expression {ast.unparse(node)}')
 
 
+def _opt(node, names):
+    return 'None' if node is None else f'(Some {zexpr(node, names)})'
+
+
+def len_expr(node, env, names):
+    """Coq Z expression for len(<array expression>); env: array name -> Coq length expression,
+    names: integer names usable in sizes.  Only shapes whose length NumPy fixes are recognised."""
+    if isinstance(node, ast.Name) and node.id in env:
+        return env[node.id]
+    if isinstance(node, ast.Subscript) and isinstance(node.slice, ast.Slice):
+        sl = node.slice
+        step = 1
+        if sl.step is not None:
+            step = ast.literal_eval(ast.unparse(sl.step))
+            if not isinstance(step, int) or step == 0:
+                raise TranslateError(f'unsupported slice step in {ast.unparse(node)}')
+        st = f'({step})' if step < 0 else str(step)
+        return (f'(pyslice_len {len_expr(node.value, env, names)} {_opt(sl.lower, names)} '
+                f'{_opt(sl.upper, names)} {st})')
+    if isinstance(node, ast.Call):
+        fn = ast.unparse(node.func)
+        a = node.args
+        if fn == 'np.pad' and len(a) >= 2:
+            w = a[1]
+            if isinstance(w, (ast.List, ast.Tuple)) and len(w.elts) == 2:
+                return f'({len_expr(a[0], env, names)} + {zexpr(w.elts[0], names)} + {zexpr(w.elts[1], names)})'
+            return f'({len_expr(a[0], env, names)} + 2 * {zexpr(w, names)})'
+        if fn == 'np.concatenate' and len(a) == 1 and isinstance(a[0], (ast.Tuple, ast.List)):
+            return '(' + ' + '.join(len_expr(e, env, names) for e in a[0].elts) + ')'
+        if fn == 'np.linspace' and len(a) == 3 and not node.keywords:
+            return zexpr(a[2], names)
+        if fn == 'np.repeat' and len(a) == 2 and not node.keywords \
+                and isinstance(a[0], ast.Subscript) and not isinstance(a[0].slice, ast.Slice):
+            return zexpr(a[1], names)
+        if fn == 'np.percentile' and len(a) == 2 and not node.keywords:
+            return len_expr(a[1], env, names)
+        if fn in ('np.empty', 'np.zeros', 'np.ones') and len(a) == 1:
+            return zexpr(a[0], names)
+    raise TranslateError(f'length of {ast.unparse(node)} is not in a recognised form')
+
+
+def _assigned_len(stmts, target, env, names):
+    """walks simple statements in order, tracking lengths of assigned arrays; returns len(target)"""
+    env = dict(env)
+    for st in stmts:
+        if isinstance(st, ast.Assign) and len(st.targets) == 1 and isinstance(st.targets[0], ast.Name):
+            try:
+                env[st.targets[0].id] = len_expr(st.value, env, names)
+            except TranslateError:
+                if st.targets[0].id == target or st.targets[0].id in env:
+                    raise
+    if target not in env:
+        raise TranslateError(f'{target} is never assigned a recognised array expression')
+    return env[target]
+
+
 def _is_raise(stmts):
     return len(stmts) == 1 and isinstance(stmts[0], ast.Raise)
 
@@ -207,7 +263,18 @@ def guards(repo):
     fn = _func(tree, '_spline_knots')
     conds = _raise_chain(_body_wo_doc(fn)[0], {'num_knots': 'num_knots'}, '_spline_knots')
     out.append('Definition spline_knots_rejects (num_knots : Z) : bool := ' + ' || '.join(conds) + '.')
+    body = _body_wo_doc(fn)
+    branch = [st for st in body if isinstance(st, ast.If) and ast.unparse(st.test) == 'penalized']
+    if len(branch) != 1 or not branch[0].orelse or ast.unparse(body[-1]) != 'return knots':
+        raise TranslateError('_spline_knots: if penalized / else / return knots not found')
+    kn = {'num_knots': 'num_knots', 'spline_degree': 'spline_degree'}
+    l_pen = _assigned_len(branch[0].body, 'knots', {}, kn)
+    l_non = _assigned_len(branch[0].orelse, 'knots', {}, kn)
+    out.append('Definition spline_knots_len (penalized : bool) (num_knots spline_degree : Z) : Z := '
+               f'if penalized then {l_pen} else {l_non}.')
     fn = _method(tree, 'SplineBasis', '__init__')
+    if 'self.knots = _spline_knots(self.x, num_knots, spline_degree, True)' not in ast.unparse(fn):
+        raise TranslateError('SplineBasis.__init__: knots are not built by _spline_knots(self.x, num_knots, spline_degree, True)')
     conds = _raise_chain(_body_wo_doc(fn)[0], {'spline_degree': 'spline_degree'}, 'SplineBasis.__init__')
     out.append('Definition spline_basis_rejects (spline_degree : Z) : bool := ' + ' || '.join(conds) + '.')
     # _spline_basis: x within knots check when numba is used
@@ -245,6 +312,19 @@ def guards(repo):
     if clamp is None:
         raise TranslateError('peak_filling: half-window clamp not found')
     out.append(f'Definition pf_half_win (half_win sections : Z) : Z := if {clamp[0]} then {clamp[1]} else half_win.')
+    sc = [st for st in body if isinstance(st, ast.If) and ast.unparse(st.test) == 'scalar_sections']
+    if len(sc) != 1:
+        raise TranslateError('peak_filling: if scalar_sections: not found')
+    pn = {'sections': 'sections', 'left_pad': 'left_pad', 'right_pad': 'right_pad'}
+    l0 = _assigned_len(sc[0].body, 'y_truncated', {}, pn)
+    later = body[body.index(sc[0]) + 1:]
+    l1 = _assigned_len([st for st in later if isinstance(st, ast.Assign)], 'y_truncated', {'y_truncated': l0}, pn)
+    out.append(f'Definition pf_y_len (sections left_pad right_pad : Z) : Z := {l1}.')
+    srcf = ast.unparse(fn)
+    for need in ('left_pad = 1 if x_truncated[0] != self.x[0] else 0',
+                 'right_pad = 1 if x_truncated[-1] != self.x[-1] else 0'):
+        if need not in srcf:
+            raise TranslateError('peak_filling: statement changed or missing: ' + need)
     src = ast.unparse(fn)
     for need in ('half_windows = np.ceil(np.logspace(np.log10(half_win), 0, max_iter)).astype(int)',
                  'half_windows[0] = half_win',
@@ -257,10 +337,12 @@ def guards(repo):
     tree, _ = _parse('pybaselines/classification.py', repo)
     fn = _func(tree, '_padded_rolling_std')
     src = ast.unparse(fn)
-    for need in ("padded_data = np.pad(data, half_window, 'reflect')",
-                 'rolling_std = _rolling_std(padded_data, half_window, ddof)[half_window:-half_window]'):
-        if need not in src:
-            raise TranslateError('_padded_rolling_std: statement changed or missing: ' + need)
+    names = {'half_window': 'half_window'}
+    plen = _assigned_len(_body_wo_doc(fn), 'padded_data', {'data': 'n'}, names)
+    out.append(f'Definition prs_padded_len (n half_window : Z) : Z := {plen}.')
+    if '_rolling_std(padded_data, half_window, ddof)' not in src:
+        raise TranslateError('_padded_rolling_std: the kernel call changed: expected '
+                             '_rolling_std(padded_data, half_window, ddof)')
 
     # ---- _banded_dot_banded
     tree, _ = _parse('pybaselines/misc.py', repo)
@@ -275,6 +357,42 @@ def guards(repo):
                  'diag_length, lower_bound)'):
         if need not in src:
             raise TranslateError('_banded_dot_banded: statement changed or missing: ' + need)
+    # ---- corner_cutting
+    tree, _ = _parse('pybaselines/spline.py', repo)
+    fn = _method(tree, '_Spline', 'corner_cutting')
+    if 'baseline = _quadratic_bezier_spline(self.x, y, np.flatnonzero(mask))' not in ast.unparse(fn):
+        raise TranslateError('corner_cutting: the kernel call changed')
+    # ---- _averaged_interp
+    tree, _ = _parse('pybaselines/classification.py', repo)
+    src = ast.unparse(_func(tree, '_averaged_interp'))
+    for need in ('output = y.copy()', 'peak_starts, peak_ends = _find_peak_segments(mask)',
+                 'for start, end in zip(peak_starts, peak_ends):',
+                 '_interp_inplace(x[start:end + 1], output[start:end + 1], left_mean, right_mean)'):
+        if need not in src:
+            raise TranslateError('_averaged_interp: statement changed or missing: ' + need)
+    src = ast.unparse(_func(tree, '_find_peak_segments'))
+    for need in ('extended_mask = np.concatenate(([True], mask, [True]))',
+                 'peak_starts = extended_mask[1:-1] < extended_mask[:-2]',
+                 'peak_starts = np.flatnonzero(peak_starts)',
+                 'peak_starts[1 if peak_starts[0] == 0 else 0:] -= 1',
+                 'peak_ends = extended_mask[1:-1] < extended_mask[2:]',
+                 'peak_ends = np.flatnonzero(peak_ends)',
+                 'peak_ends[:-1 if peak_ends[-1] == mask.shape[0] - 1 else None] += 1',
+                 'return (peak_starts, peak_ends)'):
+        if need not in src:
+            raise TranslateError('_find_peak_segments: statement changed or missing: ' + need)
+    # ---- loess allocations / PSpline numba switch
+    tree, _ = _parse('pybaselines/polynomial.py', repo)
+    src = ast.unparse(_method(tree, '_Polynomial', 'loess'))
+    for need in ('coefs = np.zeros((self._size, poly_order + 1))',
+                 'y, weight_array = self._setup_polynomial(data, weights, poly_order, calc_vander=True)',
+                 '_fill_skips(x, baseline, skips)'):
+        if need not in src:
+            raise TranslateError('loess: statement changed or missing: ' + need)
+    tree, _ = _parse('pybaselines/_spline_utils.py', repo)
+    src = ast.unparse(_func(tree, 'PSpline') if False else [n for n in tree.body if isinstance(n, ast.ClassDef) and n.name == 'PSpline'][0])
+    if 'self.basis._x_len * (self.basis.spline_degree + 1) == len(self.basis.basis.tocsr().data)' not in src:
+        raise TranslateError('PSpline: the _use_numba data-length condition changed')
     # ---- solve_pspline allocation of ab / rhs
     tree, _ = _parse('pybaselines/_spline_utils.py', repo)
     fn = _method(tree, 'PSpline', 'solve_pspline')
@@ -292,6 +410,7 @@ def gen_kernels(repo=None):
     rows = kernel_table(repo)
     out = ['(* GENERATED by tools/translate.py (gen_kernels.py) from pybaselines/*.py -- do not edit *)',
            'From Coq Require Import ZArith List Bool String.',
+           'From PB Require Import C05.PyLen.',
            'Import ListNotations.', 'Open Scope Z_scope.', '']
     out.append('Definition kernels : list (string * list string) := [')
     for k, (name, items) in enumerate(rows):
